@@ -8,7 +8,9 @@ META = {
   "allocator = outstanding-block ledger installed via the public p_mem_set_vtable (blocks from CBMC malloc, typed by request size); allocation never fails here (C18 covers failure)",
   "printf (P_ERROR) has an empty body",
   "comparator = total order on key ranks; keys/values are integer tokens (rank, identity), so every comparator outcome pattern of a total order is covered by ranks alone; "
-  "result magnitude 1 in step queries (the code only tests the sign), arbitrary (symbolic) in the lookup/foreach/clear queries",
+  "result magnitudes: concrete and asymmetric (-1/+1000 or -1000/+1 by position parity) in step queries, arbitrary and independent (symbolic) for both signs in the lookup/foreach/clear queries",
+  "foreach callback: 'continue' is exactly 0, 'stop' is an arbitrary non-zero int (symbolic; pboolean is a plain int and ptree.h stops on TRUE = non-zero), stop point symbolic over all positions "
+  "(witnesses: stop at a node with / without a left child, stop value != 1)",
   "pre-states of the step queries are ALL trees satisfying the representation invariant (BST order, parent links, RB colouring / AVL balance factors) "
   "on the complete-tree skeleton of height H -- a superset of the reachable ones; the post-state is checked against the same invariant, so the step is inductive",
   "the runner case-splits on where the search for the operation key ends (skeleton position, hit/miss) and, for removals of a stored key, on the "
